@@ -55,7 +55,8 @@ def step_classes(before, x):
 def classify(case):
     """key of the known class when EVERY violating step of the history is explained by recorded findings."""
     steps = case.get("observed") or []
-    before = EMPTY
+    # a seeded history (boot-base histories of the C12 tie) starts from the recorded seed state, not from the empty one
+    before = (steps[0].get("seed") if steps else None) or EMPTY
     found = []
     for x in steps:
         kind = x["op"]["kind"]
